@@ -1,0 +1,22 @@
+//go:build verif
+
+package keeper
+
+import (
+	sdk "github.com/cosmos/cosmos-sdk/types"
+
+	"github.com/teleport-network/teleport/x/xibc/core/packet/types"
+)
+
+// Ghost code for the verification machinery in /verif (see x/xibc/keeper/zz_verif_lemmas.go):
+// compiled only with the build tag `verif`, never called by the chain. Each function states a
+// sentence of a property as a postcondition over a sequence of calls; the callees are seen through
+// their contracts only, so what is proved is a lemma over the contracts.
+
+// lemmaAckProcessedOnce: an acknowledgement of one of this chain's own packets that was accepted
+// cannot be accepted again (C05: "any later acknowledgement for the same packet fails").
+func lemmaAckProcessedOnce(k Keeper, ctx sdk.Context, first, second *types.MsgAcknowledgement) (err1, err2 error) {
+	err1 = k.AcknowledgePacket(ctx, first)
+	err2 = k.AcknowledgePacket(ctx, second)
+	return err1, err2
+}
